@@ -21,6 +21,11 @@ EVIDENCE = VERIF / "evidence"
 REPLAYS = VERIF / "replays"
 GUARD = "PRIMAITE_VERIF"
 
+# the tree under test comes first on the import path from the very start (a check module may import primaite
+# modules at its own import time); boot() verifies where primaite really came from
+if str(REPO / "src") not in sys.path:
+    sys.path.insert(0, str(REPO / "src"))
+
 _booted = False
 _tmp_dirs: List[str] = []
 
